@@ -346,11 +346,17 @@ OPTIONS:
 			opt.OptionLength = 1
 		case TCPOptionKindMultipathTCP:
 			tcp.Multipath = true
+			if len(data) < 3 {
+				return fmt.Errorf("MPTCP option truncated: %d bytes", len(data))
+			}
 			opt.OptionLength = data[1]
-			if opt.OptionLength <= 0 {
+			if opt.OptionLength < 3 || int(opt.OptionLength) > len(data) {
 				return fmt.Errorf("MPTCP bad option length %d", opt.OptionLength)
 			}
 			opt.OptionMultipath = MPTCPSubtype(data[2] >> 4)
+			if opt.OptionLength < 4 && opt.OptionMultipath != MPTCPSubtypeMPPRIO {
+				return fmt.Errorf("MPTCP bad option length %d", opt.OptionLength)
+			}
 			switch opt.OptionMultipath {
 			case MPTCPSubtypeMPCAPABLE:
 				if opt.OptionLength != OptionLenMpCapableSyn && opt.OptionLength != OptionLenMpCapableSynAck && opt.OptionLength != OptionLenMpCapableAck && opt.OptionLength != OptionLenMpCapableAckData && opt.OptionLength != OptionLenMpCapableAckDataCSum {
